@@ -216,6 +216,13 @@ func c12Config(r *ev.Reporter, scheme string, n int) {
 		qidx[0], qidx[len(qidx)-1] = qidx[len(qidx)-1], qidx[0] // arrival order, not ascending
 	}
 	goodQC := c.QC(bA, qidx...)
+	// a second, different certificate for the same block (another quorum, or the same one in another
+	// arrival order): replicas may report different QCs for one block in an aggregate QC
+	qidx2 := make([]int, 0, len(qidx))
+	for i := n - 1; i >= 0 && len(qidx2) < len(qidx); i-- {
+		qidx2 = append(qidx2, i)
+	}
+	goodQC2 := c.QC(bA, qidx2...)
 	var aggs []hotstuff.AggregateQC
 	for k := 0; k <= n; k++ {
 		for _, extra := range [][]hotstuff.ID{nil, {0}, {math.MaxUint32}} {
@@ -227,6 +234,9 @@ func c12Config(r *ev.Reporter, scheme string, n int) {
 					q := fix.GenesisQC()
 					if i%2 == 1 {
 						q = goodQC
+					}
+					if i%3 == 2 {
+						q = goodQC2
 					}
 					qm[id] = q
 					ss = append(ss, c.SignBytes(hotstuff.TimeoutMsg{ID: id, View: v, SyncInfo: hotstuff.NewSyncInfoWith(q)}.ToBytes(), i)...)
